@@ -164,6 +164,48 @@ func relevantPackages(sp *Specs, prop string) map[string]bool {
 			out[p.Pkg] = true
 		}
 	}
+	// support packages: every contract in them is untagged (*), they belong to no property in
+	// particular (internal/general). Their contracts are used by the callers in the slice, so
+	// they are proved along with every property of their module; a failure there is a failed
+	// prerequisite (UNDECIDED), never a violation.
+	starOnly := map[string]bool{}
+	for _, f := range sp.Funcs {
+		if f.External {
+			continue
+		}
+		if _, seen := starOnly[f.Pkg]; !seen {
+			starOnly[f.Pkg] = true
+		}
+		tagged := false
+		mark := func(cs []*Clause) {
+			for _, c := range cs {
+				for _, t := range c.Tags {
+					if t != "*" {
+						tagged = true
+					}
+				}
+			}
+		}
+		mark(f.Clauses)
+		for _, l := range f.Loops {
+			mark(l.Clauses)
+		}
+		if tagged {
+			starOnly[f.Pkg] = false
+		}
+	}
+	isV2 := func(p string) bool { return strings.HasPrefix(p, modRoot+"/v2") }
+	for p, only := range starOnly {
+		if !only || out[p] {
+			continue
+		}
+		for q := range out {
+			if _, inRepo := starOnly[q]; inRepo && isV2(p) == isV2(q) {
+				out[p] = true
+				break
+			}
+		}
+	}
 	return out
 }
 
